@@ -725,7 +725,26 @@ Definition evs_dec := list_eq_dec (pair_dec string_dec Z.eq_dec).
 Record ctl := mkCtl { ct_events : list (string * Z); ct_writes : list string; ct_obs : obs;
                       ct_verr_expected : bool;   (* the object of this sync is of our class and fails validation *)
                       ct_verr_reported : bool;   (* an Event about it carried the text of the validation error *)
-                      ct_probe : Z               (* the real informer handler on this event: 0 not probed, 1 passed on to the queue, 2 dropped *) }.
+                      ct_probe : Z;              (* the real informer handler on this event: 0 not probed, 1 passed on to the queue, 2 dropped *)
+                      ct_files : list string     (* per-resource configuration files that exist after the sync *) }.
+
+(* C10 at the controller level: one file per served resource, under the name the Configurator gives it *)
+Definition file_of (r : resource) : string :=
+  let m := res_meta r in
+  match r with
+  | RIng _ => "conf.d/" ++ m_ns m ++ "-" ++ m_name m
+  | RVS _ => "conf.d/vs_" ++ m_ns m ++ "_" ++ m_name m
+  | RTS _ => "stream-conf.d/ts_" ++ m_ns m ++ "_" ++ m_name m
+  end.
+
+Definition files_ok (ob : obs) (files : list string) : bool :=
+  eqb_of (list_eq_dec string_dec) (ssort (map file_of (ob_res ob))) (ssort files).
+
+Fixpoint files_run (cs : list ctl) (i : Z) : Z :=
+  match cs with
+  | [] => 0
+  | ct :: r => if files_ok (ct_obs ct) (ct_files ct) then files_run r (i + 1) else i
+  end.
 
 (* returns (first step where the model's reports differ from the recorded Events,
             first step whose accumulated real Events are not truthful, its code,
@@ -768,4 +787,4 @@ Definition leader_foreign (es : list event) (writes : list string) (pol_writes :
 Definition ctl_case (id : Z) (c : cfg) (es : list event) (os : list obs) (final : obs)
            (alts : list (list event * obs)) (cs : list ctl) (lw : list string) (pw : list (string * string)) : list Z :=
   let '(dx, ds, dc, df, (dd, dk)) := ctl_run c objs0 [] [] es os cs 1 (0, 0, 0, 0, (0, 0)) in
-  [id; dx; ds; dc; df; Z.of_nat (List.length es); dd; dk; leader_foreign es lw pw].
+  [id; dx; ds; dc; df; Z.of_nat (List.length es); dd; dk; leader_foreign es lw pw; files_run cs 1].
